@@ -24,6 +24,19 @@ def seq_families(tier):
         F[nm] = (scen.with_bounds(scen.unary(kind, **par), kind, **un),
                  scen.with_bounds(scen.unary(kind, **par), kind, **big))
         F[nm + "_serr"] = (scen.with_bounds(scen.unary(kind, **par), kind, **unE), None)
+    # re-entrant emission: a listenable upstream emits again from inside the sink's handler
+    re = dict(maxData=3, maxTop=3, maxPull=0, allowFail=q is False, reentrant=True)
+    for kind, par in (("map", dict(f="inc")), ("filter", dict(p="even")), ("scan", dict(r="lin", seed=5)),
+                      ("take", dict(n=1)), ("take", dict(n=2)), ("skip", dict(n=1))):
+        nm = kind + (str(par["n"]) if "n" in par else "")
+        F[nm + "_re"] = (scen.with_bounds(scen.unary(kind, mode="push", **par), kind, **re), None)
+    nre = dict(maxData=2, maxTop=2, maxPull=0, allowFail=False, reentrant=True)
+    for kind in ("merge", "concat", "combine"):
+        F[kind + "2_re"] = (scen.with_bounds(scen.nary(kind, 2, mode="push"), kind, **nre), None)
+    F["flatten2_re"] = (scen.with_bounds(scen.flatten_g(2, "push", "push"), "flatten", maxData=2, maxTop=3,
+                                         maxPull=0, allowFail=False, reentrant=True), None)
+    F["share2_re"] = (scen.with_bounds(scen.share_g("push"), "share", sinks=["probe", "probe"], maxData=2,
+                                       maxTop=3, maxPull=0, allowFail=False, reentrant=True), None)
     nb = dict(maxData=1, maxTop=3, maxPull=1, allowFail=True)
     nb3 = dict(maxData=1, maxTop=2 if q else 3, maxPull=1, allowFail=True)
     nbig = dict(maxData=3, maxTop=6, maxPull=3, allowFail=True, sinkErr=True)
